@@ -127,6 +127,7 @@ Example C28_nonvacuous :
   docModified ok (lenZ f) f [0; 2; 7; 1] c 0 false = TUnknown /\
   signedData f [0; 2; 6; 2] c = Ok [65; 66; 67; 68]%N.
 Proof.
-  vm_compute. repeat split; try congruence;
-    repeat constructor; congruence.
+  split.
+  - repeat (constructor; [unfold i64, inS; vm_compute; split; discriminate|]). constructor.
+  - vm_compute. repeat split; reflexivity.
 Qed.
